@@ -29,6 +29,7 @@ def run(prog, rep, tier):
     r1 = rep.rule("R19.1", "length placeholders are back-patched with len - start on every successful path")
     check_patches(prog, r1)
     r2 = rep.rule("R19.2", "fixed layouts are path-invariant and family-consistent")
+    check_peer_type_byte(prog, r2)
     check_layouts(prog, r2)
     r3 = rep.rule("R19.3", "entry counts are the length of the collection that is written")
     check_counts(prog, r3)
@@ -274,6 +275,51 @@ def check_counts(prog, r):
     r.floor("entry counts in TABLE_DUMP_V2 records", n, 2)
 
 
+def check_peer_type_byte(prog, r):
+    """PEER_INDEX_TABLE entry (RFC 6396 4.3.1): peer type bit 0 = the address is IPv6, bit 1 = the AS number is four octets.  The
+    encoder always writes the AS with put_u32, so bit 1 must be set in every arm, and bit 0 exactly in the IPv6 arm; a reader
+    sizes the row from this byte, so a wrong bit misaligns every following row."""
+    ks = [k for k in crate_fns(prog, "rustybgp_packet") if re.search(r"::mrt::encode_table_dump", prog.name(prog.ix[k].get("root") or k))]
+    seen = {}
+    as4 = False
+    for k in ks:
+        fv = view(prog, k)
+        brs = branches(fv)
+        u8s = [b for b, t in fv.calls(re.compile(r".*BufMut::put_u8$"))]
+        if any("asn" in expr_fields(Renderer(fv, depth=8, through_names=True).operand(t["args"][1], 8)) for b, t in fv.calls(re.compile(r".*BufMut::put_u32$"))):
+            as4 = True
+        for b, t in fv.calls(re.compile(r".*BufMut::put_u8$")):
+            q = t["args"][1].get("c") or t["args"][1].get("m")
+            if q is None or q.get("p"):
+                continue
+            ql, hops = q["l"], 0
+            while hops < 4:         # the byte is usually a named local copied into the argument temporary
+                hops += 1
+                d1 = [st for bi, si, st in fv.defs().get(ql, []) if bi in fv.live and si != "t"]
+                if len(d1) == 1 and d1[0]["rv"]["r"] == "use" and (d1[0]["rv"]["o"].get("c") or d1[0]["rv"]["o"].get("m")) and not (d1[0]["rv"]["o"].get("c") or d1[0]["rv"]["o"].get("m")).get("p"):
+                    ql = (d1[0]["rv"]["o"].get("c") or d1[0]["rv"]["o"].get("m"))["l"]
+                else:
+                    break
+            ds = [(bi, st) for bi, si, st in fv.defs().get(ql, []) if bi in fv.live and si != "t" and st["rv"]["r"] == "use" and "k" in st["rv"]["o"]]
+            if len(ds) < 2:
+                continue
+            for bi, st in ds:
+                for g, l, h in flat_guards(fv, bi, brs):
+                    if g[0] == "discr" and g[2] and g[2].endswith("IpAddr") and len(l) == 1 and next(iter(l)) in ("V4", "V6"):
+                        seen[next(iter(l))] = (st["rv"]["o"]["k"].get("v"), fv, bi)
+    if set(seen) != {"V4", "V6"}:
+        r.unanalysable("encode_table_dump: peer type byte per address family not recognised (%s)" % sorted(seen))
+        return
+    r.analysed("rustybgp_packet::mrt::encode_table_dump")
+    for arm, (v, fv, bi) in sorted(seen.items()):
+        want = (1 if arm == "V6" else 0) | (2 if as4 else 0)
+        if v == want:
+            r.ok("PEER_INDEX_TABLE: peer type 0x%02x for an %s peer (AS written as %d octets)" % (v, "IPv6" if arm == "V6" else "IPv4", 4 if as4 else 2))
+        else:
+            r.fail("rustybgp_packet::mrt::encode_table_dump", "peer-type-byte:%s" % arm, "the peer type byte of an %s peer is 0x%02x; with the address family and the %d-octet AS written it must be 0x%02x, "
+                   "otherwise a reader sizes the row wrongly and every following peer entry is misaligned" % ("IPv6" if arm == "V6" else "IPv4", v if v is not None else -1, 4 if as4 else 2, want), fv.loc(bi))
+
+
 def check_peer_index(prog, r):
     """TABLE_DUMP_V2 peer indexes: a peer's index is its position in the PEER_INDEX_TABLE, i.e. `peers.len()` read at
     the moment the peer is appended.  The length must be re-read in every iteration of the innermost loop that can
@@ -335,6 +381,26 @@ def check_addpath_state(prog, r):
             else:
                 r.ok("%s: set_family(addpath_tx = record.addpath) for every record that carries a family" % container)
     r.floor("set_family sites in the BMP/MRT encoders", n, 2)
+    # the embedded codec *encodes*: whether it writes path identifiers is its addpath_tx state, so that is the field the record's
+    # flag has to set (setting addpath_rx leaves the encoder in plain mode while the record header says add-path)
+    from ..util import agg_field as _af
+    for pat, container in ((BMP_ENC, "BMP"), (MRT_ENC, "MRT")):
+        k = _find(prog, pat)
+        if not k:
+            continue
+        fv = view(prog, k)
+        rn = Renderer(fv, depth=8, through_names=True)
+        fs = fv.aggregates(re.compile(r"rustybgp_packet::bgp::FamilyState$"))
+        if not fs:
+            r.unanalysable("%s encoder builds no FamilyState for set_family" % container, fv.loc())
+        for bi, si, st in fs:
+            tx, rx = _af(st, "addpath_tx"), _af(st, "addpath_rx")
+            etx = rn.operand(tx, 8) if tx is not None else None
+            if etx is not None and "addpath" in (set(expr_vars(etx)) | set(expr_fields(etx))):
+                r.ok("%s: the record's add-path flag sets the embedded encoder's addpath_tx" % container)
+            else:
+                r.fail(fv.name, "addpath-state-wrong-direction:" + container, "the FamilyState given to the embedded encoder has addpath_tx = %s: the record's add-path flag does not reach the "
+                       "direction the encoder reads, so path identifiers are not written although the record states add-path" % (show(etx, 30) if etx is not None else "?"), fv.loc(bi))
     # .. and the flag itself is the monitored session's: a Route Monitoring record built from a change that carries an `addpath`
     # setting (Adj-RIB-In / Adj-RIB-Out changes) states that setting, not a constant
     structs_with_flag = {nm for nm, a in prog.adt_by_name.items() if len(a["variants"]) == 1 and any(f["n"] == "addpath" for f in a["variants"][0]["fields"]) and nm.startswith("rustybgpd::")}
